@@ -88,6 +88,23 @@ def check(case) -> list[Fail]:
             got = QsysShot(list(es)).to_register_bits()
         except ValueError:
             got = ValueError
+        # the same shot built incrementally, converted once on the way: conversion reflects the entries
+        # the shot has when it is asked
+        if len(es) >= 2:
+            cut = 1 + (len(es) * 7 + len(es[0][0])) % (len(es) - 1)
+            sh_inc = QsysShot(list(es[:cut]))
+            try:
+                sh_inc.to_register_bits()
+            except ValueError:
+                pass
+            for t_, v_ in es[cut:]:
+                sh_inc.append(t_, v_)
+            try:
+                got_inc = sh_inc.to_register_bits()
+            except ValueError:
+                got_inc = ValueError
+            if got_inc != got and not (got is ValueError or got_inc is ValueError) or (got is ValueError) != (got_inc is ValueError):
+                fails.append(Fail("to_register_bits", "conversion-depends-on-earlier-conversion", f"entries={es!r} converted after {cut} entries and again at the end: {got_inc!r} vs {got!r}"))
         if want is ValueError:
             if got is not ValueError:
                 fails.append(Fail("to_register_bits", "non-bit-accepted", f"entries={es!r} got={got!r}"))
